@@ -68,8 +68,16 @@ def build_case(req, tmp):
         T.il0, T.xl0 = m_.get('il0', req.get('il0', 1)), m_.get('xl0', req.get('xl0', 1))
         T.il_step, T.xl_step = req.get('il_step', 1), req.get('xl_step', 1)
         headers = {f: rng.integers(-2 ** 31, 2 ** 31 - 1, size=dims[0] * dims[1], dtype=np.int64).astype('<i4') for f in stored}
+        tracecount = None
+        if req.get('holes'):
+            hs = [m_['hole%d' % j] for j in range(req['holes'])]
+            n_grid = dims[0] * dims[1]
+            T.present = [g for g in range(n_grid) if g not in hs]
+            headers[189] = np.array([0 if g in hs else 10 + 2 * (g // dims[1]) for g in range(n_grid)], dtype='<i4')
+            headers[193] = np.array([0 if g in hs else 20 + 3 * (g % dims[1]) for g in range(n_grid)], dtype='<i4')
+            tracecount = len(T.present)
         specio.write_sgz_3d(C.path, cube, bs, rate, il0=T.il0, xl0=T.xl0, il_step=T.il_step, xl_step=T.xl_step, version=version,
-                            headers=headers)
+                            headers=headers, tracecount=tracecount)
         T.dims = dims
         T.pad = tuple(specio.pad_to(n, b) for n, b in zip(dims, bs))
         T.n_traces = dims[0] * dims[1]
@@ -92,7 +100,12 @@ def compare_result(C, res, req):
         import segyio
         headers, stored = C.headers, C.stored
         if m.argn:
-            k = args[0] + T.n_traces if args[0] < 0 else args[0]
+            ntr = len(T.present) if hasattr(T, 'present') else T.n_traces
+            k = args[0] + ntr if args[0] < 0 else args[0]
+            if 0 <= k < ntr and hasattr(T, 'present'):
+                k = T.present[k]
+            elif not 0 <= k < ntr:
+                k = -1
             if not 0 <= k < T.n_traces:
                 return ('returned-nothing-denoted', '%s returned a header although the file has only %d traces (stored fields read back as %s)' % (
                     call, T.n_traces, {f: int(res[segyio.tracefield.TraceField(f)]) for f in stored} if isinstance(res, dict) else type(res).__name__))
